@@ -162,7 +162,8 @@ def main():
                 rec['status'] = 'killed-by-suite'
             else:
                 rec['status'] = 'SURVIVED'
-                for c in ORDER:
+                order = (['C18'] + [c for c in ORDER if c != 'C18']) if f.startswith(('partial/idn/', 'partial/idnkit/')) else ORDER
+                for c in order:
                     rc, out = sh([sys.executable, os.path.join(HERE, 'vcheck.py'), c], cwd=VERIF, env=dict(os.environ, VERIF_REPO=mroot), timeout=2400)
                     if 'VIOLATION' in out or rc != 0:
                         v = [l for l in out.splitlines() if l.startswith('VIOLATION')]
